@@ -17,7 +17,7 @@ RULE = (
     "{inferred, ManualFrameFlow, BoundedFrameFlow, FlatTriples-, FlatQuads-, Graphs-, DatasetsFrameFlow; each with its "
     "default and with the options' logical type} x entry point {generic: stream_frames from generator / sink, "
     "flat_stream_to_file, grouped_stream_to_file, sink.serialize; rdflib: Graph/Dataset.serialize with options, with an "
-    "explicit stream, stream_frames, flat_stream_to_file, grouped_stream_to_file} x Hypothesis-generated non-empty inputs "
+    "explicit stream, stream_frames, flat_stream_to_file (also with nothing but the statements, as Triple / Quad objects or plain tuples), grouped_stream_to_file} x Hypothesis-generated non-empty inputs "
     "of the matching arity (lengths 1, 2, frame_size+-1, longer) plus two fixed shapes (a consecutive duplicate; one triple "
     "in two graphs back to back); plus, for the entry points that take an options object with an inferred flow, the same "
     "lattice with that ONE options object already used by an earlier call (completed, or aborted mid-encoding by an "
@@ -61,6 +61,12 @@ def lattice():
     for arity in (3, 4):
         pts.append({"entry": "generic.sink_serialize", "arity": arity, "logical": None, "delimited": True,
                     "frame_size": None, "flow": None})
+    for arity in (3, 4):
+        for plain in (False, True):
+            pts.append({"entry": "rdflib.flat_default", "arity": arity, "logical": None, "delimited": True, "frame_size": None,
+                        "flow": None, "plain_tuples": plain})
+        pts.append({"entry": "generic.flat_default", "arity": arity, "logical": None, "delimited": True, "frame_size": None,
+                    "flow": None, "plain_tuples": False})
     # the same lattice with namespace declarations switched on, for the entry points that take a sink / container
     # carrying bindings (declaration rows count towards frames and share the lookup tables)
     with_ns = []
@@ -228,6 +234,18 @@ def execute(pt, stmts):
                 out = g.serialize(format="jelly", encoding="jelly", options=opts)
                 return ("ok", out, pt["delimited"], cap.streams, projection)
             buf = out_stream(pt)
+            if name == "flat_default":
+                # nothing but the statements: stream class, logical type and tables are guessed from the first statement;
+                # rdflib users hand over plain tuples as well (Graph.triples() / Dataset.quads() yield those)
+                if integ == "generic":
+                    from pyjelly.integrations.generic import serialize as ser
+                else:
+                    from pyjelly.integrations.rdflib import serialize as ser
+                native = pyj.conv_stmts(stmts, integ)
+                if pt.get("plain_tuples"):
+                    native = [tuple(x) for x in native]
+                ser.flat_stream_to_file((x for x in native), buf)
+                return ("ok", buf.getvalue(), True, cap.streams, projection)
             if name == "sink_serialize":
                 pyj.generic_sink(stmts).serialize(buf)
                 return ("ok", buf.getvalue(), True, cap.streams, projection)
@@ -313,6 +331,11 @@ def check_point(pt, stmts, acc):
     got = [[list(T.norm(t)) for t in s] for s in res.statements]
     # what the input is, per integration / container semantics
     wrote_triples = bool(got) and len(got[0]) == 3
+    # the documented quirk only: an explicit TripleStream, or a GRAPHS base logical type, given quad data
+    quirk = pt.get("phys") == "TRIPLES" or (pt.get("logical") is not None and pt["logical"] % 10 == 3)
+    if wrote_triples and arity == 4 and not quirk:
+        return Violation(f"C06:graph-names-dropped:{bucket}", f"{pt['entry']}: {len(stmts)} quads handed over, the output holds "
+                         f"triples (no stream class or GRAPHS logical type was asked for)", case)
     if integ == "generic":
         want = [[list(T.norm(t)) for t in s] for s in stmts]
         if wrote_triples and arity == 4:
